@@ -1,4 +1,298 @@
 import EaselModel.Core.Proto
-/-! Line-protocol driver for the C15 model (stub: answers bad-op until the model lands). -/
-open EaselModel.Proto
-def main : IO Unit := runDriver () (fun s _ => (s, "bad-op"))
+import EaselModel.Msa.Model
+import EaselModel.Msa.AbcTables
+/-! Line-protocol driver for the C15 model (alignment transformations, WUSS). Mirrors harness/h_msaops.c. -/
+open EaselModel EaselModel.Proto EaselModel.Msa
+
+structure S where
+  a : Option Msa := none
+  b : Option Msa := none
+
+def hexN (width : Nat) (x : Nat) : String :=
+  let s := Nat.toDigits 16 x
+  String.ofList (List.replicate (width - s.length) '0' ++ s)
+
+/-- NULL -> ~, "" -> -, else hex -/
+def oStr : Option Bytes → String
+  | none => "~"
+  | some [] => "-"
+  | some b => hexOfBytes b
+
+def argStr? (ws : List String) (key : String) : Option Bytes :=
+  match arg? ws key with
+  | none => none
+  | some "~" => none
+  | some v => bytesOfHex v
+
+def abcOf (s : String) : Option Abc :=
+  if s == "rna" then some Gen.rnaAbc else if s == "dna" then some Gen.dnaAbc else if s == "amino" then some Gen.aminoAbc else none
+
+def abcName : Option Abc → String
+  | none => "none"
+  | some a => if a.type == 1 then "rna" else if a.type == 2 then "dna" else if a.type == 3 then "amino" else "other"
+
+def stName : St → String
+  | .ok => "ok" | .einval => "einval" | .eincompat => "eincompat" | .esyntax => "esyntax" | .efail => "fail"
+  | .einconceivable => "einconceivable" | .fault => "fault"
+
+def werrName : WErr → String
+  | .einval => "einval exception" | .einconceivable => "einconceivable exception" | .efail => "fail exception"
+  | .esyntax => "esyntax" | .fault => "fault"
+
+def resLine (r : Res) : String := if r.exc then stName r.st ++ " exception" else stName r.st
+
+def dumpMsa (m : Msa) : String := Id.run do
+  let mut s := s!"ok nseq={m.nseq} alen={m.alen} flags={m.flags} abc={abcName m.abc}"
+  s := s ++ " name=" ++ oStr m.name ++ " desc=" ++ oStr m.desc ++ " acc=" ++ oStr m.acc ++ " au=" ++ oStr m.au
+  s := s ++ " ss_cons=" ++ oStr m.ss_cons ++ " sa_cons=" ++ oStr m.sa_cons ++ " pp_cons=" ++ oStr m.pp_cons
+  s := s ++ " rf=" ++ oStr m.rf ++ " mm=" ++ oStr m.mm
+  s := s ++ " cutoff=" ++ ",".intercalate (m.cutoff.map fun c => hexN 8 c.toNat)
+  s := s ++ " cutset=" ++ ",".intercalate (m.cutset.map fun c => if c then "1" else "0")
+  for i in [0:m.nseq] do
+    let row := m.rows.getD i []
+    let rowS := if m.isDigital then (if row.isEmpty then "-" else hexOfBytes row) else oStr (some row)
+    s := s ++ " sq=" ++ oStr (some (m.sqname.getD i [])) ++ "," ++ hexN 16 (m.wgt.getD i 0).toNat ++ "," ++ rowS
+    s := s ++ "," ++ oStr (m.sqacc.getD i none) ++ "," ++ oStr (m.sqdesc.getD i none)
+    s := s ++ "," ++ oStr (m.ss.getD i none) ++ "," ++ oStr (m.sa.getD i none) ++ "," ++ oStr (m.pp.getD i none)
+  for c in m.comment do s := s ++ " comment=" ++ oStr (some c)
+  for t in m.gf do s := s ++ " gf=" ++ oStr (some t.1) ++ "," ++ oStr (some t.2)
+  for t in m.gs do
+    s := s ++ " gs=" ++ oStr (some t.1)
+    for i in [0:m.nseq] do s := s ++ "," ++ oStr (t.2.getD i none)
+  for t in m.gc do s := s ++ " gc=" ++ oStr (some t.1) ++ "," ++ oStr (some t.2)
+  for t in m.gr do
+    s := s ++ " gr=" ++ oStr (some t.1)
+    for i in [0:m.nseq] do s := s ++ "," ++ oStr (t.2.getD i none)
+  return s
+
+def parseMask (s : String) : List Bool := if s == "-" then [] else s.toList.map (· == '1')
+
+def parseCt (s : String) : List Nat :=
+  if s == "-" then [0] else 0 :: (s.splitOn ",").map (fun w => w.toNat?.getD 0)
+
+def ctLine (ct : List Nat) : String :=
+  if ct.length ≤ 1 then "-" else ",".intercalate ((ct.drop 1).map toString)
+
+def setOpt (l : List (Option Bytes)) (i : Nat) (v : Option Bytes) : List (Option Bytes) :=
+  match v with
+  | none => l
+  | some b => l.set i (some b)
+
+def orElse' (new old : Option Bytes) : Option Bytes := match new with | some b => some b | none => old
+
+/-- the harness's `gs`/`gc`/`gr` construction ops (`esl_msa_AddGS`, `esl_msa_AppendGC`, `esl_msa_AppendGR`) -/
+def appendGC (tbl : List (Bytes × Bytes)) (tag v : Bytes) : List (Bytes × Bytes) :=
+  match tbl.findIdx? (fun t => t.1 == tag) with
+  | some t => tbl.modify t (fun (tg, old) => (tg, old ++ v))
+  | none => tbl ++ [(tag, v)]
+
+def minspanOf (tbits : Nat) (alen : Nat) : Int :=
+  ((Float32.ofBits (UInt32.ofNat tbits) * Float32.ofNat alen).toFloat.ceil.toInt64).toInt
+
+def exceptSs : Except WErr Bytes → String
+  | .ok ss => "ok ss=" ++ oStr (some ss)
+  | .error e => werrName e
+
+def step (s : S) (line : String) : S × String :=
+  let ws := words line
+  let which : Option Msa := if arg? ws "w" == some "b" then s.b else s.a
+  match ws with
+  | "new" :: _ =>
+    ({ s with a := some (Msa.create ((argNat? ws "nseq").getD 1) ((argNat? ws "alen").getD 0)) }, "ok")
+  | "sq" :: _ =>
+    match s.a, argNat? ws "i" with
+    | some m, some i =>
+      if i ≥ m.nseq then (s, "bad-op") else
+      let m := match argStr? ws "name" with | some n => { m with sqname := m.sqname.set i n } | none => m
+      let m := match argStr? ws "seq" with
+        | some r => if r.length == m.alen then { m with rows := m.rows.set i r } else m
+        | none => m
+      let m := match arg? ws "wgt" with
+        | some w => { m with wgt := m.wgt.set i (UInt64.ofNat ((w.toList.foldl (fun acc c => acc * 16 + (hexVal c).getD 0) 0))) }
+        | none => m
+      let m := { m with sqacc := setOpt m.sqacc i (argStr? ws "acc"), sqdesc := setOpt m.sqdesc i (argStr? ws "desc"),
+                        ss := setOpt m.ss i (argStr? ws "ss"), sa := setOpt m.sa i (argStr? ws "sa"),
+                        pp := setOpt m.pp i (argStr? ws "pp") }
+      ({ s with a := some m }, "ok")
+    | _, _ => (s, "bad-op")
+  | "col" :: _ =>
+    match s.a with
+    | some m =>
+      let m := { m with name := orElse' (argStr? ws "name") m.name, desc := orElse' (argStr? ws "desc") m.desc,
+                        acc := orElse' (argStr? ws "acc") m.acc, au := orElse' (argStr? ws "au") m.au,
+                        ss_cons := orElse' (argStr? ws "ss_cons") m.ss_cons, sa_cons := orElse' (argStr? ws "sa_cons") m.sa_cons,
+                        pp_cons := orElse' (argStr? ws "pp_cons") m.pp_cons, rf := orElse' (argStr? ws "rf") m.rf,
+                        mm := orElse' (argStr? ws "mm") m.mm,
+                        flags := if (argNat? ws "haswgts").getD 0 != 0 then m.flags ||| flagHasWgts else m.flags }
+      ({ s with a := some m }, "ok")
+    | none => (s, "bad-op")
+  | "cut" :: _ =>
+    match s.a, argNat? ws "i", arg? ws "v" with
+    | some m, some k, some v =>
+      if k ≥ 6 then (s, "bad-op") else
+      let bits := v.toList.foldl (fun acc c => acc * 16 + (hexVal c).getD 0) 0
+      ({ s with a := some { m with cutoff := m.cutoff.set k (UInt32.ofNat bits), cutset := m.cutset.set k true } }, "ok")
+    | _, _, _ => (s, "bad-op")
+  | "comment" :: _ =>
+    match s.a, argStr? ws "v" with
+    | some m, some v => ({ s with a := some { m with comment := m.comment ++ [v] } }, "ok")
+    | _, _ => (s, "bad-op")
+  | "gf" :: _ =>
+    match s.a, argStr? ws "tag", argStr? ws "v" with
+    | some m, some t, some v => ({ s with a := some { m with gf := m.gf ++ [(t, v)] } }, "ok")
+    | _, _, _ => (s, "bad-op")
+  | "gs" :: _ =>
+    match s.a, argStr? ws "tag", argStr? ws "v", argNat? ws "i" with
+    | some m, some t, some v, some i =>
+      if i ≥ m.nseq then (s, "bad-op") else ({ s with a := some { m with gs := addGS m.nseq m.gs t i v } }, "ok")
+    | _, _, _, _ => (s, "bad-op")
+  | "gc" :: _ =>
+    match s.a, argStr? ws "tag", argStr? ws "v" with
+    | some m, some t, some v => ({ s with a := some { m with gc := appendGC m.gc t v } }, "ok")
+    | _, _, _ => (s, "bad-op")
+  | "gr" :: _ =>
+    match s.a, argStr? ws "tag", argStr? ws "v", argNat? ws "i" with
+    | some m, some t, some v, some i =>
+      if i ≥ m.nseq then (s, "bad-op") else ({ s with a := some { m with gr := appendGR m.nseq m.gr t i v } }, "ok")
+    | _, _, _, _ => (s, "bad-op")
+  | "dump" :: _ =>
+    match which with
+    | some m => (s, dumpMsa m)
+    | none => (s, "nomsa")
+  | "validate" :: _ =>
+    match which with
+    | some m => (s, if validate m then "ok" else "fail")
+    | none => (s, "nomsa")
+  | "swap" :: _ => ({ a := s.b, b := s.a }, "ok")
+  | "digitize" :: _ =>
+    match s.a, (arg? ws "abc").bind abcOf with
+    | some m, some a => let r := digitize a m; ({ s with a := some r.msa }, resLine r)
+    | _, _ => (s, "bad-op")
+  | "textize" :: _ =>
+    match s.a with
+    | some m => let r := textize m; ({ s with a := some r.msa }, resLine r)
+    | none => (s, "bad-op")
+  | "colsubset" :: _ =>
+    match s.a, arg? ws "mask" with
+    | some m, some mk =>
+      let mask := parseMask mk
+      if mask.length != m.alen then (s, "bad-op") else
+      let r := columnSubset m mask; ({ s with a := some r.msa }, resLine r)
+    | _, _ => (s, "bad-op")
+  | "rbb" :: _ =>
+    match s.a, arg? ws "mask" with
+    | some m, some mk =>
+      let mask := parseMask mk
+      if mask.length != m.alen then (s, "bad-op") else
+      let r := removeBrokenBasepairs m mask; ({ s with a := some r.msa }, resLine r)
+    | _, _ => (s, "bad-op")
+  | "minimgaps" :: _ =>
+    match s.a, argStr? ws "gaps" with
+    | some m, some g => let r := minimGaps m g ((argNat? ws "rf").getD 0 != 0); ({ s with a := some r.msa }, resLine r)
+    | _, _ => (s, "bad-op")
+  | "minimgapstext" :: _ =>
+    match s.a, argStr? ws "gaps" with
+    | some m, some g =>
+      let r := minimGapsText m g ((argNat? ws "rf").getD 0 != 0) ((argNat? ws "fix").getD 0 != 0)
+      ({ s with a := some r.msa }, resLine r)
+    | _, _ => (s, "bad-op")
+  | "nogaps" :: _ =>
+    match s.a, argStr? ws "gaps" with
+    | some m, some g => let r := noGaps m g; ({ s with a := some r.msa }, resLine r)
+    | _, _ => (s, "bad-op")
+  | "nogapstext" :: _ =>
+    match s.a, argStr? ws "gaps" with
+    | some m, some g => let r := noGapsText m g ((argNat? ws "fix").getD 0 != 0); ({ s with a := some r.msa }, resLine r)
+    | _, _ => (s, "bad-op")
+  | "seqsubset" :: _ =>
+    match s.a, arg? ws "mask" with
+    | some m, some mk =>
+      let mask := parseMask mk
+      if mask.length != m.nseq then (s, "bad-op") else
+      match sequenceSubset m mask with
+      | .ok b => ({ s with b := some b }, "ok")
+      | .error (st, exc) => ({ s with b := none }, resLine { msa := m, st := st, exc := exc })
+    | _, _ => (s, "bad-op")
+  | "clone" :: _ =>
+    match s.a with
+    | some m => ({ s with b := some (clone m) }, "ok")
+    | none => (s, "bad-op")
+  | "copy" :: _ =>
+    match s.a with
+    | some m => ({ s with b := some (clone m) }, "ok")
+    | none => (s, "bad-op")
+  | "revcomp" :: _ =>
+    match s.a with
+    | some m => let r := reverseComplement m; ({ s with a := some r.msa }, resLine r)
+    | none => (s, "bad-op")
+  | "flushleft" :: _ =>
+    match s.a with
+    | some m => if !m.isDigital then (s, "bad-op") else
+      let r := flushLeftInserts m; ({ s with a := some r.msa }, resLine r)
+    | none => (s, "bad-op")
+  | "markfrag" :: _ =>
+    match s.a, arg? ws "t" with
+    | some m, some t =>
+      let bits := t.toList.foldl (fun acc c => acc * 16 + (hexVal c).getD 0) 0
+      let fr := markFragments m (minspanOf bits m.alen)
+      (s, "ok frag=" ++ String.ofList (fr.map fun b => if b then '1' else '0'))
+    | _, _ => (s, "bad-op")
+  | "markfragold" :: _ =>
+    match s.a, arg? ws "t" with
+    | some m, some t =>
+      let bits := t.toList.foldl (fun acc c => acc * 16 + (hexVal c).getD 0) 0
+      let thr := Float.ofBits (UInt64.ofNat bits)
+      let m' := markFragmentsOld m (fun rlen => Float.ofNat rlen ≤ thr * Float.ofNat m.alen)
+      ({ s with a := some m' }, "ok")
+    | _, _ => (s, "bad-op")
+  | "wuss2ct" :: _ =>
+    match argStr? ws "ss" with
+    | some ss => (s, match wuss2ct ss with | some ct => "ok ct=" ++ ctLine ct | none => "esyntax")
+    | none => (s, "bad-op")
+  | "ct2wuss" :: _ =>
+    match arg? ws "ct" with
+    | some c => (s, exceptSs (ct2wuss (parseCt c)))
+    | none => (s, "bad-op")
+  | "ct2simple" :: _ =>
+    match arg? ws "ct" with
+    | some c => (s, exceptSs (ct2simplewuss (parseCt c)))
+    | none => (s, "bad-op")
+  | "roundtrip" :: _ =>
+    match argStr? ws "ss" with
+    | some ss =>
+      match wuss2ct ss with
+      | none => (s, "esyntax")
+      | some ct =>
+        let l := "ok ct=" ++ ctLine ct
+        match ct2wuss ct with
+        | .error .fault => (s, "fault")
+        | .error e => (s, l ++ " " ++ werrName e)
+        | .ok s2 =>
+          let l := l ++ " ok ss=" ++ oStr (some s2)
+          match wuss2ct s2 with
+          | none => (s, l ++ " esyntax")
+          | some ct2 => (s, l ++ " ok ct=" ++ ctLine ct2)
+    | none => (s, "bad-op")
+  | "wuss2kh" :: _ =>
+    match argStr? ws "ss" with | some ss => (s, "ok ss=" ++ oStr (some (wuss2kh ss))) | none => (s, "bad-op")
+  | "kh2wuss" :: _ =>
+    match argStr? ws "ss" with | some ss => (s, "ok ss=" ++ oStr (some (kh2wuss ss))) | none => (s, "bad-op")
+  | "nopseudo" :: _ =>
+    match argStr? ws "ss" with | some ss => (s, "ok ss=" ++ oStr (some (wussNopseudo ss))) | none => (s, "bad-op")
+  | "wussrev" :: _ =>
+    match argStr? ws "ss" with | some ss => (s, "ok ss=" ++ oStr (some (wussReverse ss))) | none => (s, "bad-op")
+  | "wussfull" :: _ =>
+    match argStr? ws "ss" with | some ss => (s, exceptSs (wussFull ss)) | none => (s, "bad-op")
+  | "rbbss" :: _ =>
+    match argStr? ws "ss", arg? ws "mask" with
+    | some ss, some mk =>
+      let mask := parseMask mk
+      if mask.length != ss.length then (s, "bad-op") else
+      match removeBrokenFromSS ss mask with
+      | .ok s2 => (s, "ok ss=" ++ oStr (some s2))
+      | .error .fault => (s, "fault")
+      | .error e => (s, werrName e ++ " ss=" ++ oStr (some ss))
+    | _, _ => (s, "bad-op")
+  | _ => (s, "bad-op")
+
+def main : IO Unit := runDriver ({} : S) step
